@@ -34,5 +34,31 @@ TransportRule   == LET t == Transport(u, 631) IN
                    /\ (u.scheme \in {"http", "https"} => t.scheme = u.scheme /\ t.port = u.port)
                    /\ (u.scheme = "ipp"  => t.scheme = "http"  /\ t.port = (IF u.port = 0 THEN 631 ELSE u.port))
                    /\ (u.scheme = "ipps" => t.scheme = "https" /\ t.port = (IF u.port = 0 THEN 631 ELSE u.port))
+(* ---- design mutants (self-test): each must be refuted ---- *)
+CanonMut(mode) ==
+  CASE mode = "keep-query"    -> [Canon(u) EXCEPT !.hasq = u.hasq, !.query = u.query]
+    [] mode = "keep-userinfo" -> [Canon(u) EXCEPT !.hasuser = u.hasuser, !.user = u.user]
+    [] mode = "fallback-v6"   -> IF u.host = "v6" THEN u ELSE Canon(u)
+    [] mode = "default-port"  -> [Canon(u) EXCEPT !.port = IF u.port = 0 THEN 631 ELSE u.port]
+    [] mode = "drop-port"     -> [Canon(u) EXCEPT !.port = 0]
+    [] mode = "skip-ipp"      -> IF u.scheme \in {"ipp", "ipps"} THEN u ELSE Canon(u)
+    [] mode = "root-path"     -> [Canon(u) EXCEPT !.path = "/"]
+    [] OTHER -> Canon(u)
+Mut_KeepQuery    == IsCanonOf(CanonMut("keep-query"), u)
+Mut_KeepUserinfo == IsCanonOf(CanonMut("keep-userinfo"), u)
+Mut_FallbackV6   == IsCanonOf(CanonMut("fallback-v6"), u)
+Mut_DefaultPort  == IsCanonOf(CanonMut("default-port"), u)
+Mut_DropPort     == IsCanonOf(CanonMut("drop-port"), u)
+Mut_SkipIpp      == IsCanonOf(CanonMut("skip-ipp"), u)
+Mut_RootPath     == IsCanonOf(CanonMut("root-path"), u)
+Mut_None         == IsCanonOf(CanonMut("none"), u)          \* control: holds
+TransportRuleOf(t) ==
+                   /\ t.host = u.host /\ t.user = u.user /\ t.pass = u.pass /\ t.query = u.query
+                   /\ t.path = NormPath(u.path)
+                   /\ (u.scheme \in {"http", "https"} => t.scheme = u.scheme /\ t.port = u.port)
+                   /\ (u.scheme = "ipp"  => t.scheme = "http"  /\ t.port = (IF u.port = 0 THEN 631 ELSE u.port))
+                   /\ (u.scheme = "ipps" => t.scheme = "https" /\ t.port = (IF u.port = 0 THEN 631 ELSE u.port))
+Mut_Ipps443      == TransportRuleOf(Transport(u, 443))       \* D8, the known finding: refuted
+Mut_TransportDropsQuery == TransportRuleOf([Transport(u, 631) EXCEPT !.query = "", !.hasq = FALSE])
 Gen == PrintT(<<"CASE", ToJson([shape |-> u, pathclass |-> u.path])>>)
 =============================================================================
